@@ -38,7 +38,7 @@ CLAIMS.update({
    ref="DESIGN.md section 4 C03"),
  "C13": dict(
    technique="must-pass-through on the structured CFG with retry-idiom recognition; may-throw summaries; guard dataflow",
-   text="Decides the structural half of C13: triangulate_surface can only return a cell that passed initialize_cell_properties(check=true) on that path (bounded-retry idiom recognised, failure exit throws intialization_exception); initialize_cell_properties(true) passes through generate_edge_set, throws on !is_manifold() and orients normals; per-cell work runs under parallel_exception_handler; no noexcept function on the start-up cone leaks an exception; every insertion into the Poisson grid is guarded by the all-neighbours |p-q|^2 < l_min*l_min rejection over the neighbourhood of the same grid. Also: cell::is_manifold tests both 'every edge has two faces' and V - E + F == 2; the grid in which accepted Poisson samples are looked up has a voxel size >= the rejection distance; parallel_exception_handler transports the worker's exception unchanged (catch(...) + current_exception, no slicing). Also: the stored face normals are computed after the orientation repair in initialize_cell_properties; no function on the start-up cone keeps a function-local static initialised from run-time values.",
+   text="Decides the structural half of C13: triangulate_surface can only return a cell that passed initialize_cell_properties(check=true) on that path (bounded-retry idiom recognised, failure exit throws intialization_exception); initialize_cell_properties(true) passes through generate_edge_set, throws on !is_manifold() and orients normals; per-cell work runs under parallel_exception_handler; no noexcept function on the start-up cone leaks an exception; every insertion into the Poisson grid is guarded by the all-neighbours |p-q|^2 < l_min*l_min rejection over the neighbourhood of the same grid. Also: cell::is_manifold tests both 'every edge has two faces' and V - E + F == 2; the grid in which accepted Poisson samples are looked up has a voxel size >= the rejection distance; parallel_exception_handler transports the worker's exception unchanged (catch(...) + current_exception, no slicing). Also: the stored face normals are computed after the orientation repair in initialize_cell_properties; no function on the start-up cone keeps a function-local static initialised from run-time values. Also: the ball-pivoting algorithm is given the same length as the minimum spacing of the sampled point cloud.",
    note="Fidelity of the reconstruction (volume, bounding box, distance to the input surface) and the success probability are value-level and not decided. Neighbourhood completeness is C20.",
    ref="DESIGN.md section 4 C13"),
  "C15": dict(
@@ -74,7 +74,7 @@ CLAIMS.update({
 CLAIMS.update({
  "C02": dict(
    technique="symbolic ledgers and gradient identities on cell.cpp's force routines (LF engine; |n| handled as an algebraic symbol with L^2 = n.n), hinge-side tag analysis, slot/receiver dataflow, compositional translation typing",
-   text="Decides for all operand values: tension/elasticity forces of a face sum to zero, have zero torque and equal (-(tension of that face's type)+elasticity factor)*dA/dx_k with the cached normal being the normalised cross product as computed by update_face_normal_and_area (opened); each node of a face receives normal*pressure_*area/3; get_angle_gradient's three gradients sum to zero, each node receives the slot of its own position from each call and the regularisation forces cancel; in the bending term every product combines normal, cotangent and area of the same face of the hinge and the four hinge nodes receive their own slots; every add_force argument of the routines is translation invariant (arguments of opaque geometric calls included). Also: all four hinge forces carry one common stiffness factor; the forces of one zero-sum ledger are applied under identical guard chains (all or none); no routine of class cell visits the node/face slots [0, live count) (slot-loop lint).",
+   text="Decides for all operand values: tension/elasticity forces of a face sum to zero, have zero torque and equal (-(tension of that face's type)+elasticity factor)*dA/dx_k with the cached normal being the normalised cross product as computed by update_face_normal_and_area (opened); each node of a face receives normal*pressure_*area/3; get_angle_gradient's three gradients sum to zero, each node receives the slot of its own position from each call and the regularisation forces cancel; in the bending term every product combines normal, cotangent and area of the same face of the hinge and the four hinge nodes receive their own slots; every add_force argument of the routines is translation invariant (arguments of opaque geometric calls included). Also: all four hinge forces carry one common stiffness factor; the forces of one zero-sum ledger are applied under identical guard chains (all or none); no routine of class cell visits the node/face slots [0, live count) (slot-loop lint). Also: a face is skipped by the tension / pressure routines only under a condition that makes its force vanish identically; vec3::get_angle_with is acos of the normalised dot product (range [0, pi]).",
    note="Zero net force / torque of the pressure and bending terms as a whole are global identities over a closed surface and are not decided; neither is agreement with dV/dx beyond the per-face form, nor rotation equivariance.",
    ref="DESIGN.md section 4 C02"),
 })
@@ -95,7 +95,7 @@ CLAIMS.update({
 CLAIMS.update({
  "C08": dict(
    technique="qualifier (id-kind) inference over clang AST with declared getter/field kinds; must-pass-through on the structured CFG; phase-order analysis of run_iteration; literal-vs-validation table",
-   text="Decides in all six configurations: no comparison, subscript, map key, coupling record or id/index setter mixes persistent cell ids, list indices, node/face indices, global face ids and face-type indices (one reasoned allow-list entry); every population change in run_iteration / cell_divider::run is followed on every path by the renumbering loop; cell ids come only from the post-incremented counter; coupling readers run after the contact model's reset of the same iteration with no population change in between; literal face-type indices used by live code of a cell class are covered by the start-up validation for that class; faces get owner_cell_ = shared_from_this() when adopted or created. Also: no node renumbering (cell::rebase, e.g. through mesh_writer::write) and no conditional skipping of the contact phase between the creation of the couplings and their last reader; the renumbering loops start at position 0 and follow every population change, including the append of the daughters.",
+   text="Decides in all six configurations: no comparison, subscript, map key, coupling record or id/index setter mixes persistent cell ids, list indices, node/face indices, global face ids and face-type indices (one reasoned allow-list entry); every population change in run_iteration / cell_divider::run is followed on every path by the renumbering loop; cell ids come only from the post-incremented counter; coupling readers run after the contact model's reset of the same iteration with no population change in between; literal face-type indices used by live code of a cell class are covered by the start-up validation for that class; faces get owner_cell_ = shared_from_this() when adopted or created. Also: no node renumbering (cell::rebase, e.g. through mesh_writer::write) and no conditional skipping of the contact phase between the creation of the couplings and their last reader; the renumbering loops start at position 0 and follow every population change, including the append of the daughters. Also: the id counter is never a by-value copy; the coupling reset runs for every used node; under contact model 2 the key of an inserting coupled_nodes_map_[k] look-up is drawn from that node's own keys.",
    note="Liveness of the designated node at use time over arbitrary histories (e.g. a coupled node deleted by remeshing between contact phase and integrator) is not decided. Kinds are declared in a table in the checker.",
    ref="DESIGN.md section 4 C08, section 3 E4"),
 })
@@ -111,7 +111,7 @@ CLAIMS.update({
 CLAIMS.update({
  "C19": dict(
    technique="sibling / table rules over the writers' operator<< chains and mapper table, schedule and file-number rules (LF engine for floor(t/S)+1)",
-   text="Decides: in both statistics writers header and rows have the same fixed columns, each followed by the separator, range over the same mapper list (name vs extractor applied to the row's own cell) and end with exactly one newline (per header / per cell row), and the two writers agree; the columns cell_id, type_id, area, volume, target_volume, pressure come from the getter of that quantity and each getter returns the field of that name; statistics are written under iteration_ % 50 == 0 and once after the run loop, iteration_ is incremented exactly once per iteration; save_mesh computes floor(t/S)+1, writes only on change after storing the number, builds the cell-data and face-data paths from that same stored number, hands over the current population, and is the first action of every iteration. Also: no function on the cone of the concurrent file-writing sections formats through a mutable function-local static buffer.",
+   text="Decides: in both statistics writers header and rows have the same fixed columns, each followed by the separator, range over the same mapper list (name vs extractor applied to the row's own cell) and end with exactly one newline (per header / per cell row), and the two writers agree; the columns cell_id, type_id, area, volume, target_volume, pressure come from the getter of that quantity and each getter returns the field of that name; statistics are written under iteration_ % 50 == 0 and once after the run loop, iteration_ is incremented exactly once per iteration; save_mesh computes floor(t/S)+1, writes only on change after storing the number, builds the cell-data and face-data paths from that same stored number, hands over the current population, and is the first action of every iteration. Also: no function on the cone of the concurrent file-writing sections formats through a mutable function-local static buffer. The header/row agreement is decided on emission traces (what is written, whether streamed piecewise or assembled in a string).",
    note="K within one of T/S+1 depends on floating-point accumulation of the simulated time and is not decided; neither is parseability of the written files (see C16).",
    ref="DESIGN.md section 4 C19"),
 })
@@ -127,7 +127,7 @@ CLAIMS.update({
 CLAIMS.update({
  "C14": dict(
    technique="compositional translation-weight typing (LF engine): symbolic shift of all position-like atoms, affine-weight inference for scalars/vectors, Min/Max and kernel lemmas",
-   text="Decides the structural half of C14 in all six configurations: every add_force argument of the cell routines and of the configured contact model (including arguments of opaque geometric calls) has translation weight 0; the kernel outputs have weight 0; integrator displacements have weight 0 and points written by pos_.reset weight 1; nodes added by split/merge have weight 1; both operands of every position-dependent comparison in the refiner, the contact look-up and narrow phase, the box test and the divider's plane tests have equal weights per axis; grid quantisation numerators have weight 0 and face boxes / global extrema weight 1 on their own axis; every running minimum/maximum of coordinates in the product starts from a sentinel on the right side (+inf/max() for minima, -inf/lowest() for maxima; numeric_limits::min() is positive). Also: cell::get_angle_gradient returns vectors of weight 0 on every return path; every term accumulated into the second moments of get_cell_longest_axis has weight 0; the orientation decision is made on the consistently wound surface.",
+   text="Decides the structural half of C14 in all six configurations: every add_force argument of the cell routines and of the configured contact model (including arguments of opaque geometric calls) has translation weight 0; the kernel outputs have weight 0; integrator displacements have weight 0 and points written by pos_.reset weight 1; nodes added by split/merge have weight 1; both operands of every position-dependent comparison in the refiner, the contact look-up and narrow phase, the box test and the divider's plane tests have equal weights per axis; grid quantisation numerators have weight 0 and face boxes / global extrema weight 1 on their own axis; every running minimum/maximum of coordinates in the product starts from a sentinel on the right side (+inf/max() for minima, -inf/lowest() for maxima; numeric_limits::min() is positive). Also: cell::get_angle_gradient returns vectors of weight 0 on every return path; every term accumulated into the second moments of get_cell_longest_axis has weight 0; the orientation decision is made on the consistently wound surface. Also: in the contact routines every norm / dot / cross product is taken of translation-invariant vectors (no invariance by cancellation of absolute coordinates).",
    note="Rounding-level agreement of two runs and the absolute tolerances (almost_equal(x,0), machine-epsilon padding of the grids) are value-level and not decided. Declared exceptions: compute_volume (origin-based), compute_centroid (weight 1). Cached geometric state is treated as invariant (established by C02/C12). Loop-accumulated points (CM 2 averaged positions) are declined.",
    ref="DESIGN.md section 4 C14"),
 })
@@ -135,7 +135,7 @@ CLAIMS.update({
 CLAIMS.update({
  "C01": dict(
    technique="path-wise delta counting (Euler ledger) over the structured AST with callee summaries; sibling-branch agreement; permutation-parity rule on the winding decisions; stale-cache effect rule (node-order writers vs normal refreshers) over the call graph",
-   text="Decides structural necessary conditions of C01 on every path and in all six configurations: split_edge / merge_edge / swap_edge change the numbers of nodes and faces by (+1,+2) / (-1,-2) / (0,0) on every path (dV - dF/2 = 0, branches agree, early exits precede any change; replace_node summarised from its own body); delete_* reset the element and queue its slot unconditionally, add_* pop-or-append and set id/used flag in both branches; add_face's two branches register the face on the edges (n1,n2),(n2,n3),(n3,n1), refresh normal/area and set the owner, delete_face looks up the same pairs; split_edge's new faces are even/odd permutations of the replaced triangle as tested against the cached normal of the right face; swap_edge winds each new face against a surviving neighbour across one of its own edges; whenever a face's node order may change the cached normal is refreshed before control leaves the mesh classes (found D19); rebase regenerates the edge set whenever something was compacted, renumbers and remaps. Also: swap_edge returns before deleting anything when the edge it would create already exists; edge::hash (the key ordering edge_set_) multiplies node ids in arithmetic that cannot wrap for 32-bit ids.",
+   text="Decides structural necessary conditions of C01 on every path and in all six configurations: split_edge / merge_edge / swap_edge change the numbers of nodes and faces by (+1,+2) / (-1,-2) / (0,0) on every path (dV - dF/2 = 0, branches agree, early exits precede any change; replace_node summarised from its own body); delete_* reset the element and queue its slot unconditionally, add_* pop-or-append and set id/used flag in both branches; add_face's two branches register the face on the edges (n1,n2),(n2,n3),(n3,n1), refresh normal/area and set the owner, delete_face looks up the same pairs; split_edge's new faces are even/odd permutations of the replaced triangle as tested against the cached normal of the right face; swap_edge winds each new face against a surviving neighbour across one of its own edges; whenever a face's node order may change the cached normal is refreshed before control leaves the mesh classes (found D19); rebase regenerates the edge set whenever something was compacted, renumbers and remaps. Also: swap_edge returns before deleting anything when the edge it would create already exists; edge::hash (the key ordering edge_set_) multiplies node ids in arithmetic that cannot wrap for 32-bit ids. Also: on the work-list copy of an outer edge split_edge exchanges only faces that contain both nodes of that edge.",
    note="Not decided: that every edge stays 2-manifold and the volume positive after arbitrary operation histories, adequacy of can_be_merged's link condition, geometry-dependent orientation (the sign tests themselves). The ledger counts calls, it does not prove they are applied to the right elements.",
    ref="DESIGN.md section 4 C01"),
 })
